@@ -168,6 +168,11 @@ Theorem C11_npv_homogeneous : forall (r k : Q) (cf : list Q), npv r (map (Qmult 
 Proof. exact npv_scale. Qed.
 Print Assumptions C11_npv_homogeneous.
 
+(* ... and leaves the payback period unchanged (k > 0): the cumulative cash flow is multiplied by k in every year *)
+Theorem C11_payback_scale_invariant : forall (k : Q) (cum : list Q), 0 < k -> payback (map (Qmult k) cum) == payback cum.
+Proof. exact payback_scale. Qed.
+Print Assumptions C11_payback_scale_invariant.
+
 (* ---- non-vacuity ---- *)
 Example ex_scale : let c := Verif.Props.C01.ex1 in
   let '(a, b, _) := lcoe_exec c in let '(a3, b3, _) := lcoe_exec (scale_costs 3 c) in a3 == 3 * a /\ b3 == 3 * b /\ 0 < a.
@@ -196,3 +201,7 @@ Example ex_zero_addon :
   length (base_project_cashflow a) = 5%nat /\ nth 2 (base_project_cashflow a) 0 == 3 /\
   nth 2 (addon_project_cashflow a) 0 == 3 /\ nth 0 (addon_project_cashflow a) 0 == - (20).
 Proof. cbv zeta. vm_compute. repeat split. Qed.
+
+(* a cumulative cash flow with a crossing: payback 2 + 10/(5+10), the same after scaling by 7 *)
+Example ex_payback_scale : payback [-(30); -(10); 5; 20] == 2 + (2 # 3) /\ payback (map (Qmult 7) [-(30); -(10); 5; 20]) == 2 + (2 # 3).
+Proof. vm_compute. split; reflexivity. Qed.
